@@ -332,3 +332,117 @@ def check_C16(ctx, replay=None):
     }
     return finish(ctx, "model_checking", cov,
                   ["a serial order need not respect real-time order of non-overlapping calls (the statement does not ask for it)"])
+
+
+def _dedupe_table(ctx, res, name):
+    seen, rows = set(), []
+    for t, v in res.prints:
+        k = json.dumps(v, sort_keys=True)
+        if t == "TABLE" and k not in seen:
+            seen.add(k)
+            rows.append(v)
+    if not rows:
+        raise core.ToolError("TLC produced no TABLE lines (%s)" % res.log)
+    table = ctx.path(name)
+    with open(table, "w") as f:
+        for r in rows:
+            f.write(json.dumps(r) + "\n")
+    return table, len(rows)
+
+
+def check_C04(ctx, replay=None):
+    from .p_topology import _tables
+    quick = ctx.quick()
+    tx = run_tlc(ctx, "TxAtomic", "MCTxAtomic.cfg", workers=4, tags=("TABLE",), timeout=900)
+    core.require_actions(tx, ["Begin", "WriteEvent", "Fail", "WriteCommit", "Finish", "Sync", "CrashRecover"], "txatomic")
+    _tlc_must_hold(ctx, tx, "c04:tlc-invariant")
+    if not quick:
+        dv = run_tlc(ctx, "TxAtomic", "MCTxAtomicDev.cfg", workers=2, tags=(), timeout=600, expect_error=True)
+        if dv.ok:
+            raise core.ToolError("specification self-test failed: MCTxAtomicDev.cfg (index entries queued per event) should "
+                                 "violate an invariant")
+    table, nrows = _dedupe_table(ctx, tx, "tx-table.ndjson")
+    binary = cargo_build(ctx, "h-store")
+    # (schedules) the writer parked inside a transaction while every read API runs
+    mid = run_harness(ctx, binary, ["midtx", table], timeout=3000)
+    for v in mid.violations:
+        add_violation(ctx, v["key"].replace("c04:", "c04:"), v["detail"], v["replay"])
+    # (histories) group completeness of every read over generated histories with failed transactions
+    simcfg = core.make_cfg(ctx, "MCEventStoreSim.cfg", EmitAt=60)
+    sim = run_tlc(ctx, "MCEventStore", simcfg, workers=1, simulate=6 if quick else 60, depth=61, timeout=900)
+    plans, n = _plans(ctx, [sim], "c04-plans.ndjson")
+    hist = run_harness(ctx, binary, ["replay", plans, "c04"], timeout=6000)
+    for v in hist.violations:
+        add_violation(ctx, v["key"], v["detail"], v["replay"])
+    # (crash points) images cut between a transaction's events and its commit record
+    rec = run_tlc(ctx, "Recovery", "Recovery.cfg" if quick else "RecoveryT.cfg", workers=4, tags=("TABLE",), timeout=600)
+    _tlc_must_hold(ctx, rec, "c04:tlc-invariant")
+    rows = [v for t, v in rec.prints if t == "TABLE" and any(s > 1 for s in v["shapes"]) and v["acked"] < len(v["shapes"])]
+    ctab = ctx.path("c04-crash.ndjson")
+    with open(ctab, "w") as f:
+        for r in rows:
+            f.write(json.dumps(r) + "\n")
+    crash = run_harness(ctx, binary, ["crash", ctab], timeout=6000)
+    for v in crash.violations:
+        add_violation(ctx, v["key"].replace("c05:", "c04:crash:"), v["detail"], v["replay"])
+    cov = {
+        "states": tx.distinct + rec.distinct, "transitions": tx.generated + rec.generated + sim.generated,
+        "traces_validated_against_impl": mid.stats["evaluations"] + n,
+        "samples": mid.stats.get("samples", []) + hist.stats.get("samples", [])[:1],
+        "evaluations": mid.stats["evaluations"] + hist.stats["evaluations"] + crash.stats["evaluations"],
+        "distinct_nontrivial": mid.stats["distinct_classes"] + crash.stats["distinct_classes"],
+        "midtx_cases": mid.stats["evaluations"], "midtx_read_rounds": mid.stats.get("read_rounds"),
+        "history_scans": hist.stats.get("scans"), "history_events_compared": hist.stats.get("events_compared"),
+        "crash_images": crash.stats.get("images"),
+        "rule": "TxAtomic.tla (event records one by one, commit record, index entries queued after the last record, published by "
+                "sync, truncation of a failed write, crash at any record boundary + recovery) is explored exhaustively with "
+                "NoPartialTx, InFlightInvisible, NoDanglingEntry. Binding: (schedules) for every transaction shape of the model "
+                "(1-3 events, failing at event j or not, with and without a rollover first) the real writer thread is parked "
+                "through hooks after every written event, before the commit record and before the reply, and at each stop every "
+                "read API (event lookup, read_transaction, stream and partition scans, latest version/sequence) must show nothing of "
+                "the transaction in flight and all committed data; after an error reply, after the next append and after reopen "
+                "nothing of the failed transaction; (histories) generated histories with rejected and half-failed transactions, "
+                "every scan group checked for transaction completeness; (crash points) crash images cut between a transaction's "
+                "events and its commit record, every read compared with the model. distinct_nontrivial = shapes x stops + crash classes.",
+    }
+    return finish(ctx, "model_checking", cov,
+                  ["with sync-per-append the index entries may already be published when the writer is parked before its reply: "
+                   "at that stop only all-or-nothing is required"])
+
+
+def check_C15(ctx, replay=None):
+    quick = ctx.quick()
+    ex = run_tlc(ctx, "Durability", "MCDurabilitySched.cfg", workers=4, timeout=900, tags=("TABLE",))
+    core.require_actions(ex, ["Write", "Reply", "Fsync", "Publish", "RollSync", "RollCreate", "RollSwap", "RollInstallNew",
+                              "AckAny", "LookLive", "LookPool"], "durability-sched")
+    _tlc_must_hold(ctx, ex, "c15:tlc-invariant")
+    full = run_tlc(ctx, "Durability", "MCDurability.cfg", workers=8, timeout=1500, tags=())
+    _tlc_must_hold(ctx, full, "c15:tlc-invariant")
+    if not quick:
+        dv = run_tlc(ctx, "Durability", "MCDurabilityD10.cfg", workers=4, timeout=600, tags=(), expect_error=True)
+        if dv.ok:
+            raise core.ToolError("specification self-test failed: MCDurabilityD10.cfg should violate ReaderNeverMisses")
+    table, nrows = _dedupe_table(ctx, ex, "sched-table.ndjson")
+    binary = cargo_build(ctx, "h-store")
+    hr = run_harness(ctx, binary, ["sched", table], timeout=6000)
+    for v in hr.violations:
+        add_violation(ctx, v["key"], v["detail"], v["replay"])
+    cov = {
+        "states": ex.distinct + full.distinct, "transitions": ex.generated + full.generated,
+        "traces_validated_against_impl": hr.stats["evaluations"],
+        "samples": hr.stats.get("samples", []),
+        "evaluations": hr.stats["evaluations"], "distinct_nontrivial": hr.stats["distinct_classes"],
+        "schedules": hr.stats.get("schedules"), "two_step_reads": hr.stats.get("two_step_reads"),
+        "table_rows": nrows, "stress_reads": hr.stats.get("stress_reads"),
+        "rule": "Durability.tla with two-step reader lookups and the rollover sub-steps is explored exhaustively (ReaderNeverMisses, "
+                "PublishedMonotone, PublishedFindable); its state graph yields every reachable pair (writer position at the reader's "
+                "live-index step, writer position at its reader-pool step). Each pair is forced on a real Database: the writer thread "
+                "is stepped from hook to hook through a real rollover (reply point, synced, created, indexes swapped with the lock "
+                "held, sealed segment installed, new segment installed, next reply point), the read (read_event, read_transaction, "
+                "read_stream, read_partition, get_stream_version, get_partition_sequence) is started at the first position, parked "
+                "at its hook between the two lookups, resumed at the second position; it must return everything acknowledged before "
+                "it started, and a second read by the same reader must not lose anything. Plus free-running stress: 4 writers / 4 "
+                "readers over 128 KiB segments with the same two assertions. distinct_nontrivial = (API, positions) combinations run.",
+    }
+    return finish(ctx, "model_checking", cov,
+                  ["the window between two hook points is covered by the stress part only"])
